@@ -213,7 +213,7 @@ Proof.
   assert (H : Tj tryj tuple n (cs _ w) t).
   { apply (TW_run jst j_slots j_awaited (fun _ i => i) j_handle tuple tuple j_order (fun _ => None) j_pre_any j_finish (fun s => s) j_drop (fun _ => true)
              j_Q J1 J8 J9 J10 J12 (@no_mut jst) (Tj tryj tuple n) (Uj tryj tuple n)
-             (Uj_cont tryj tuple n) (Uj_stop tryj tuple n) (Tj_order tryj tuple n) (Uj_finish tryj tuple n)
+             (Uj_cont tryj tuple n) (Uj_stop tryj tuple n) (fun s is s1 t _ => Tj_order tryj tuple n s is s1 t) (Uj_finish tryj tuple n)
              (fun s t o _ (E: None = Some o) => match E with eq_refl => I end) (fun s t _ _ => Tj_endp tryj tuple n s t) (fun _ => Uj_endp tryj tuple n)
              (Tj_Q tryj tuple n) (Uj_Q tryj tuple n) (fun w _ _ _ _ H _ => H) ops); [|exact Hd].
     intros _. cbn. split; [split; [reflexivity|split; [reflexivity|]]|].
